@@ -14,7 +14,7 @@ JOBS += [
  _j("skipCompoundProgramHeader", ":? mnemonic (: mnemonic)* with loop contract", replace=["skipProgramMnemonic"], need_classes=["loop_invariant"]),
  _j("scpiLex_IsEos", "end-of-input test"),
  _j("scpiLex_WhiteSpace", "token span = consumed blanks", replace=["skipWs"], props=_PROPS + ["C05"]),
- _j("scpiLex_ProgramHeader", "header token: type, span, rollback, '?' handling", replace=["skipCommonProgramHeader", "skipCompoundProgramHeader"], props=_PROPS + ["C02"]),
+ _j("scpiLex_ProgramHeader", "header token: type, span, rollback, '?' handling, last byte", replace=["skipCommonProgramHeader", "skipCompoundProgramHeader"], props=_PROPS + ["C02"]),
  _j("scpiLex_CharacterProgramData", "mnemonic token", need_classes=["loop_invariant"], props=_PROPS + ["C05"]),
  _j("scpiLex_DecimalNumericProgramData", "decimal token: mantissa, optional exponent with rollback", replace=["skipMantisa", "skipExponent", "skipWs"], props=_PROPS + ["C05", "C07", "C04"]),
  _j("scpiLex_SuffixProgramData", "relaxed suffix token (loop contract)", replace=["skipAlpha"], need_classes=["loop_invariant"], props=_PROPS + ["C05", "C04"]),
